@@ -27,20 +27,16 @@ Lemma Ok_inj : forall {A} (a b : A), Ok a = Ok b -> a = b.
 Proof. intros A a b H. now injection H. Qed.
 
 Section Ops.
-Variables (ca cd : nat -> mode) (pf ls : nat -> bool) (cs : list value).
+Variables (ca cd : nat -> mode) (pf ls : nat -> bool) (cs : list value) (defs : list (str * prog)).
 Notation vok := (C17_Inv.vok ca cd pf).
 Notation vokb := (C17_Inv.vokb ca cd pf).
 Notation env_ok := (C17_Inv.env_ok ca cd pf).
-Notation Inv := (C17_Inv.Inv ca cd pf ls cs).
+Notation Inv := (C17_Inv.Inv ca cd pf ls cs defs).
 Notation frame := (C17_Inv.frame ca cd ls).
-Notation good := (C17_Inv.good ca cd pf ls cs).
+Notation good := (C17_Inv.good ca cd pf ls cs defs).
 Notation sok_e := (C17_Inv.sok_e ca cd pf cs).
 Notation sok_v := (C17_Inv.sok_v ca cd pf cs).
 Notation sok_i := (C17_Inv.sok_i ca cd pf cs).
-
-(* the right operand of a +: not a list, or a list that is not empty in the state at hand *)
-Definition addsafe (st : state) (b : value) : Prop :=
-  match b with VList sl | VFrozenList sl => list_items Asp st sl <> [] | _ => True end.
 
 Lemma good_pure : forall st v, Inv st -> vok v -> post (good st vok) (Ok (v, st)).
 Proof. intros. apply good_ret; auto. Qed.
@@ -87,13 +83,13 @@ Proof.
   destruct obj; try discriminate H.
   - destruct idx; try discriminate H. inv_res H. injection H as <-. reflexivity.
   - destruct idx; try discriminate H. inv_res H. injection H as <-.
-    apply Forall_nth; [|reflexivity]. apply (items_ok ca cd pf ls cs); auto. apply vok_list_frozen; auto.
+    apply Forall_nth; [|reflexivity]. apply (items_ok ca cd pf ls cs defs); auto. apply vok_list_frozen; auto.
   - destruct idx; try discriminate H. inv_res H. injection H as <-.
-    apply Forall_nth; [|reflexivity]. apply (items_ok ca cd pf ls cs); auto.
+    apply Forall_nth; [|reflexivity]. apply (items_ok ca cd pf ls cs defs); auto.
   - destruct idx; try discriminate H. inv_res H. injection H as <-.
-    eapply env_get_ok; [|eassumption]. apply (dict_ok ca cd pf ls cs); auto. apply vok_dict_frozen; auto.
+    eapply env_get_ok; [|eassumption]. apply (dict_ok ca cd pf ls cs defs); auto. apply vok_dict_frozen; auto.
   - destruct idx; try discriminate H. inv_res H. injection H as <-.
-    eapply env_get_ok; [|eassumption]. apply (dict_ok ca cd pf ls cs); auto.
+    eapply env_get_ok; [|eassumption]. apply (dict_ok ca cd pf ls cs defs); auto.
 Qed.
 
 Lemma vslice_good : forall st obj lo hi, Inv st -> vok obj -> post (good st vok) (vslice Asp st obj lo hi).
@@ -118,8 +114,8 @@ Qed.
 Lemma iter_items_ok : forall st v l, Inv st -> vok v -> iter_items Asp st v = Ok l -> Forall vok l.
 Proof.
   intros st v l HI Hv H. unfold iter_items in H. destruct v; try discriminate H.
-  - injection H as <-. apply (items_ok ca cd pf ls cs); auto. apply vok_list_frozen; auto.
-  - injection H as <-. apply (items_ok ca cd pf ls cs); auto.
+  - injection H as <-. apply (items_ok ca cd pf ls cs defs); auto. apply vok_list_frozen; auto.
+  - injection H as <-. apply (items_ok ca cd pf ls cs defs); auto.
   - injection H as <-. constructor.
   - eapply range_items_ok; eauto.
 Qed.
@@ -127,7 +123,7 @@ Qed.
 Lemma set_vars_combine_good : forall names items st, Inv st -> Forall vok items ->
   let st' := fold_left (fun acc nv => set_var (fst nv) (snd nv) acc) (combine names items) st in Inv st' /\ frame st st'.
 Proof.
-  intros names items st HI Hit. apply (set_vars_good ca cd pf ls cs); auto.
+  intros names items st HI Hit. apply (set_vars_good ca cd pf ls cs defs); auto.
   unfold C17_Inv.env_ok. revert items Hit. induction names as [|n r IH]; intros [|x xs] Hit; cbn; try constructor.
   - inversion Hit; auto.
   - inversion Hit; auto.
@@ -141,7 +137,7 @@ Proof.
   - destruct v; try discriminate H. inv_res H. injection H as <-. cbn. split; [auto|apply frame_refl].
   - injection H as <-. apply set_var_good; auto.
   - destruct v; try discriminate H. inv_res H. apply Ok_inj in H. rewrite <- H.
-    apply set_vars_combine_good; auto. apply (items_ok ca cd pf ls cs); auto. apply vok_list_frozen; auto.
+    apply set_vars_combine_good; auto. apply (items_ok ca cd pf ls cs defs); auto. apply vok_list_frozen; auto.
 Qed.
 
 (* ---------------------------------------------------------------- operators *)
@@ -166,22 +162,22 @@ Ltac leaf HI :=
     | apply bool_of_good; exact HI ].
 
 Lemma apply_bin_good : forall fuel o a b st, Inv st -> vok a -> vok b ->
-  (o = Add -> addsafe st b) -> post (good st vok) (apply_bin Asp fuel o a b st).
+  post (good st vok) (apply_bin Asp fuel o a b st).
 Proof.
-  intros fuel o a b st HI Ha Hb Hadd.
+  intros fuel o a b st HI Ha Hb.
   assert (Hrep : forall n sl, vok (VFrozenList sl) ->
             post (good st vok) (let '(r, st1) := alloc_list (repeat_items n (list_items Asp st sl)) (length (repeat_items n (list_items Asp st sl))) st in Ok (VList r, st1))).
-  { intros n sl Hs. apply (new_list_good ca cd pf ls cs); auto. apply Forall_concat_repeat. apply (items_ok ca cd pf ls cs); auto. }
-  assert (Hla : forall sl s2, vok (VFrozenList sl) -> vok (VFrozenList s2) -> list_items Asp st s2 <> [] ->
+  { intros n sl Hs. apply (new_list_good ca cd pf ls cs defs); auto. apply Forall_concat_repeat. apply (items_ok ca cd pf ls cs defs); auto. }
+  assert (Hla : forall sl s2, vok (VFrozenList sl) -> vok (VFrozenList s2) ->
             post (good st vok) (let '(r, st1) := list_add Asp sl (list_items Asp st s2) st in Ok (VList r, st1))).
-  { intros sl s2 H1 H2 Hne. pose proof (list_add_good ca cd pf ls cs sl (list_items Asp st s2) st HI H1) as H.
+  { intros sl s2 H1 H2. pose proof (list_add_good ca cd pf ls cs defs sl (list_items Asp st s2) st HI H1) as H.
     destruct (list_add Asp sl (list_items Asp st s2) st) as [r st1]. cbn. unfold C17_Inv.good. apply H; auto.
-    apply (items_ok ca cd pf ls cs); auto. }
+    apply (items_ok ca cd pf ls cs defs); auto. }
   assert (Hun : forall i j, vok (VFrozenDict i) -> vok (VFrozenDict j) ->
             post (good st vok) (let '(n, st1) := alloc_dict (fold_left (fun acc kv => env_set (fst kv) (snd kv) acc) (dict_of st j) (dict_of st i)) st in Ok (VDict n, st1))).
-  { intros i j H1 H2. pose proof (alloc_dict_good ca cd pf ls cs (fold_left (fun acc kv => env_set (fst kv) (snd kv) acc) (dict_of st j) (dict_of st i)) st HI) as H.
+  { intros i j H1 H2. pose proof (alloc_dict_good ca cd pf ls cs defs (fold_left (fun acc kv => env_set (fst kv) (snd kv) acc) (dict_of st j) (dict_of st i)) st HI) as H.
     destruct (alloc_dict _ st) as [n st1]. cbn. unfold C17_Inv.good. apply H.
-    apply merged_ok; apply (dict_ok ca cd pf ls cs); auto. }
+    apply merged_ok; apply (dict_ok ca cd pf ls cs defs); auto. }
   unfold apply_bin. cbv zeta.
   destruct o; cbv beta iota; try (leaf HI).
   (* Is / IsNot and the remaining operators: by cases on the operands *)
@@ -190,7 +186,7 @@ Proof.
   all: repeat first
          [ leaf HI
          | apply Hrep; solve [assumption | apply vok_list_frozen; assumption]
-         | apply Hla; [solve [assumption | apply vok_list_frozen; assumption] | solve [assumption | apply vok_list_frozen; assumption] | apply Hadd; reflexivity]
+         | apply Hla; [solve [assumption | apply vok_list_frozen; assumption] | solve [assumption | apply vok_list_frozen; assumption]]
          | apply Hun; solve [assumption | apply vok_dict_frozen; assumption]
          | post_step ].
 Qed.
@@ -204,8 +200,8 @@ Section Chain.
   Hypothesis un_ok : forall u v st r, un u v st = Ok r -> vok r.
 
   (* what the chain needs of the evaluation of one operand *)
-  Definition operand_good (o : binop) (x : vexpr) : Prop :=
-    forall st, Inv st -> post (fun v st' => good st vok v st' /\ (o = Add -> addsafe st' v)) (evalx x st).
+  Definition operand_good (x : vexpr) : Prop :=
+    forall st, Inv st -> post (good st vok) (evalx x st).
 
   Lemma lift_un_good : forall u obj st, Inv st -> post (good st vok) (lift_un un u obj st).
   Proof.
@@ -213,51 +209,45 @@ Section Chain.
     unfold C17_Inv.good. split; [auto|]. split; [apply frame_refl|eapply un_ok; eauto].
   Qed.
 
-  Lemma operand_plain : forall o x st, operand_good o x -> Inv st -> post (good st vok) (evalx x st).
-  Proof. intros o x st H HI. eapply post_weaken; [apply H; auto|]. intros a st' [Hg _]. exact Hg. Qed.
-
   Lemma recheck_post : forall {A} (Q : A -> state -> Prop) obj st st1 (k : res (A * state)),
     post Q k -> post Q (recheck tr obj st st1 k).
   Proof. intros A Q obj st st1 k H. unfold recheck. destruct (Bool.eqb _ _); [exact H|exact I]. Qed.
 
   Lemma interp_op_x_good : forall i obj st, Inv st -> vok obj ->
-    (forall o x, i = OBin o x -> operand_good o x) ->
+    (forall o x, i = OBin o x -> operand_good x) ->
     post (good st vok) (interp_op_x evalx (apply_bin Asp fuel) un tr obj (of_opitem i) st).
   Proof.
     intros i obj st HI Ho Hx. destruct i as [o x|u]; cbn [of_opitem interp_op_x]; [|apply lift_un_good; auto].
     specialize (Hx o x eq_refl).
     assert (Hstrict : post (good st vok) (rbind (evalx x st) (fun '(r, st1) => apply_bin Asp fuel o obj r st1))).
-    { eapply post_bind; [apply Hx; auto|]. intros r st1 [(I1 & F1 & Hr) Hadd]. cbv beta match.
-      eapply good_frame; [exact F1|]. apply apply_bin_good; auto. }
+    { eapply good_bind; [apply Hx; auto|]. intros r st1 I1 F1 Hr. cbv beta match. apply apply_bin_good; auto. }
     destruct o; try exact Hstrict.
     - destruct (Bool.eqb (tr obj st) (binop_eqb And And)); [|apply good_pure; auto].
-      eapply post_bind; [eapply operand_plain; eauto|]. intros r st1 Hg. cbv beta match. apply recheck_post. exact Hg.
+      eapply post_bind; [apply Hx; auto|]. intros r st1 Hg. cbv beta match. apply recheck_post. exact Hg.
     - destruct (Bool.eqb (tr obj st) (binop_eqb Or And)); [|apply good_pure; auto].
-      eapply post_bind; [eapply operand_plain; eauto|]. intros r st1 Hg. cbv beta match. apply recheck_post. exact Hg.
+      eapply post_bind; [apply Hx; auto|]. intros r st1 Hg. cbv beta match. apply recheck_post. exact Hg.
   Qed.
 
-  Lemma interp_op_v_good : forall obj o n st0 st, Inv st -> vok obj -> vok n -> o <> Add ->
+  Lemma interp_op_v_good : forall obj o n st0 st, Inv st -> vok obj -> vok n ->
     post (good st vok) (interp_op_v (apply_bin Asp fuel) tr obj o n st0 st).
   Proof.
-    intros obj o n st0 st HI Ho Hn Hne. unfold interp_op_v.
-    destruct o; try (apply apply_bin_good; auto; intros; congruence).
+    intros obj o n st0 st HI Ho Hn. unfold interp_op_v.
+    destruct o; try (apply apply_bin_good; auto).
     - apply recheck_post. destruct (Bool.eqb _ _); apply good_pure; auto.
     - apply recheck_post. destruct (Bool.eqb _ _); apply good_pure; auto.
   Qed.
 
   Lemma flat_ops_good : forall (ops : list opitem),
-    (forall o x, List.In (OBin o x) ops -> operand_good o x) ->
-    add_prec_ok ops = true ->
+    (forall o x, List.In (OBin o x) ops -> operand_good x) ->
     forall obj st, Inv st -> vok obj ->
     post (good st vok) (flat_ops evalx (apply_bin Asp fuel) un tr obj (items_of ops) st).
   Proof.
-    induction ops as [|i0 rest IH]; intros Hx Hp obj st HI Ho.
+    induction ops as [|i0 rest IH]; intros Hx obj st HI Ho.
     - cbn. apply good_pure; auto.
-    - assert (Hx0 : forall o x, i0 = OBin o x -> operand_good o x).
-      { intros o x ->. apply Hx. left. reflexivity. }
-      assert (Hxr : forall o x, List.In (OBin o x) rest -> operand_good o x).
-      { intros o x Hin. apply Hx. right. exact Hin. }
-      cbn [add_prec_ok] in Hp. apply andb_prop in Hp. destruct Hp as [Hp0 Hpr].
+    - assert (Hx0 : forall o x, i0 = OBin o x -> operand_good x).
+      { intros o x ->. apply (Hx o). left. reflexivity. }
+      assert (Hxr : forall o x, List.In (OBin o x) rest -> operand_good x).
+      { intros o x Hin. apply (Hx o). right. exact Hin. }
       destruct rest as [|i1 rest'].
       + cbn [items_of map flat_ops]. apply interp_op_x_good; auto.
       + change (items_of (i0 :: i1 :: rest')) with (of_opitem i0 :: of_opitem i1 :: items_of rest').
@@ -267,9 +257,7 @@ Section Chain.
           intros r st1 I1 F1 Hr. cbv beta match. apply IH; auto.
         * destruct (alazy (ikey (of_opitem i0)) && negb (Bool.eqb (tr obj st) (key_is_and (ikey (of_opitem i0))))); [apply good_pure; auto|].
           destruct i0 as [o x|u]; cbn [of_opitem].
-          -- assert (Hne : o <> Add).
-             { intros ->. cbn [of_opitem ikey] in Eprec. rewrite Eprec in Hp0. discriminate. }
-             eapply good_bind; [eapply operand_plain; [apply Hx0; reflexivity|exact HI]|].
+          -- eapply good_bind; [apply (Hx0 o x eq_refl); exact HI|].
              intros r0 st1 I1 F1 Hr0. cbv beta match.
              eapply good_bind; [apply IH; auto|].
              intros n st2 I2 F2 Hn. cbv beta match. apply interp_op_v_good; auto.
@@ -279,8 +267,8 @@ Section Chain.
 End Chain.
 
 Lemma chain_good : forall fuel evalx ops obj st,
-  (forall o x, List.In (OBin o x) ops -> operand_good evalx o x) ->
-  add_prec_ok ops = true -> Inv st -> vok obj ->
+  (forall o x, List.In (OBin o x) ops -> operand_good evalx x) ->
+  Inv st -> vok obj ->
   post (good st vok) (chain Asp evalx fuel obj ops st).
 Proof.
   intros. unfold chain. apply flat_ops_good; auto. intros u v st0 r Hr. eapply apply_un_ok; eauto.
@@ -310,7 +298,7 @@ Qed.
 Lemma strict_list_ok : forall st v l, Inv st -> vok v -> strict_list Asp st v = Ok l -> Forall vok l.
 Proof.
   intros st v l HI Hv H. unfold strict_list in H. destruct v; try discriminate H; apply Ok_inj in H; subst.
-  - apply (items_ok ca cd pf ls cs); auto. apply vok_list_frozen; auto.
+  - apply (items_ok ca cd pf ls cs defs); auto. apply vok_list_frozen; auto.
   - constructor.
 Qed.
 
@@ -376,10 +364,10 @@ Proof.
   destruct (str_eqb n (s "enumerate")).
   { apply post_bind_pure. intros l Hl. pose proof (strict_list_ok _ _ _ HI A0 Hl) as Hlv.
     eapply good_bind.
-    - apply (mapM_good vok); [exact HI|]. intros iv Hin st0 I0. apply (new_list_good ca cd pf ls cs); auto.
+    - apply (mapM_good vok); [exact HI|]. intros iv Hin st0 I0. apply (new_list_good ca cd pf ls cs defs); auto.
       constructor; [reflexivity|]. constructor; [|constructor]. destruct iv as [i v]. apply in_combine_r in Hin.
       rewrite Forall_forall in Hlv. apply Hlv. exact Hin.
-    - intros pairs st1 I1 F1 Hp. cbv beta match. apply (new_list_good ca cd pf ls cs); auto. }
+    - intros pairs st1 I1 F1 Hp. cbv beta match. apply (new_list_good ca cd pf ls cs defs); auto. }
   destruct (str_eqb n (s "zip")).
   { apply post_bind_pure. intros lsts Hl.
     assert (Hlv : Forall (Forall vok) lsts).
@@ -390,18 +378,18 @@ Proof.
       apply Forall_nth; [|reflexivity]. rewrite Forall_forall in Hlv. apply Hlv. exact Hin. }
     destruct (forallb _ _); [|exact I].
     eapply good_bind.
-    - apply (mapM_good vok); [exact HI|]. intros i Hin st0 I0. apply (new_list_good ca cd pf ls cs); auto.
-    - intros rows st1 I1 F1 Hp. cbv beta match. apply (new_list_good ca cd pf ls cs); auto. }
+    - apply (mapM_good vok); [exact HI|]. intros i Hin st0 I0. apply (new_list_good ca cd pf ls cs defs); auto.
+    - intros rows st1 I1 F1 Hp. cbv beta match. apply (new_list_good ca cd pf ls cs defs); auto. }
   destruct (str_eqb n (s "any")). { repeat first [leaf HI | post_step]. }
   destruct (str_eqb n (s "all")). { repeat first [leaf HI | post_step]. }
   destruct (str_eqb n (s "reversed")).
   { apply post_bind_pure. intros l Hl. pose proof (strict_list_ok _ _ _ HI A0 Hl) as Hlv.
-    apply (new_list_good ca cd pf ls cs); auto. apply Forall_rev. auto. }
+    apply (new_list_good ca cd pf ls cs defs); auto. apply Forall_rev. auto. }
   destruct (str_eqb n (s "sorted")).
   { apply post_bind_pure. intros l Hl. pose proof (strict_list_ok _ _ _ HI A0 Hl) as Hlv.
     destruct (nth 1 args VNone); try exact I. destruct (nth 2 args VNone); try exact I.
     destruct (_ && _); [exact I|]. apply post_bind_pure. intros r Hr.
-    apply (new_list_good ca cd pf ls cs); auto. eapply insertion_sort_ok; eauto. }
+    apply (new_list_good ca cd pf ls cs defs); auto. eapply insertion_sort_ok; eauto. }
   destruct (str_eqb n (s "min") || str_eqb n (s "max")).
   { apply post_bind_pure. intros l Hl. pose proof (strict_list_ok _ _ _ HI A0 Hl) as Hlv.
     destruct (nth 1 args VNone); try exact I. destruct l as [|x r]; [exact I|]. inversion Hlv; subst.
@@ -430,27 +418,27 @@ Proof.
                (fun '(pairs, st1) => Ok (new_list pairs st1))
        else Err EUnsupported)).
   { intros i Hi. assert (Hk : env_ok (dict_enum Asp (dict_of st i))).
-    { cbn [dict_enum]. apply sort_kvs_ok. apply (dict_ok ca cd pf ls cs); auto. }
+    { cbn [dict_enum]. apply sort_kvs_ok. apply (dict_ok ca cd pf ls cs defs); auto. }
     destruct (str_eqb n (s "get")).
     { destruct (nth 1 args VNone); try exact I. apply good_pure; auto.
       match goal with |- C17_Inv.vok _ _ _ (match ?g with _ => _ end) => destruct g eqn:Eg end; [eapply env_get_ok; eauto|auto]. }
     destruct (str_eqb n (s "keys")).
-    { apply (new_list_good ca cd pf ls cs); auto. apply Forall_forall. intros x Hin. apply in_map_iff in Hin.
+    { apply (new_list_good ca cd pf ls cs defs); auto. apply Forall_forall. intros x Hin. apply in_map_iff in Hin.
       destruct Hin as (kv & <- & _). reflexivity. }
     destruct (str_eqb n (s "values")).
-    { apply (new_list_good ca cd pf ls cs); auto. apply Forall_forall. intros x Hin. apply in_map_iff in Hin.
+    { apply (new_list_good ca cd pf ls cs defs); auto. apply Forall_forall. intros x Hin. apply in_map_iff in Hin.
       destruct Hin as (kv & <- & Hin). unfold C17_Inv.env_ok in Hk. rewrite Forall_forall in Hk. apply Hk. exact Hin. }
     destruct (str_eqb n (s "items")); [|exact I].
     eapply good_bind.
-    - apply (mapM_good vok); [exact HI|]. intros kv Hin st0 I0. apply (new_list_good ca cd pf ls cs); auto.
+    - apply (mapM_good vok); [exact HI|]. intros kv Hin st0 I0. apply (new_list_good ca cd pf ls cs defs); auto.
       constructor; [reflexivity|]. constructor; [|constructor].
       unfold C17_Inv.env_ok in Hk. rewrite Forall_forall in Hk. apply Hk. exact Hin.
-    - intros pairs st1 I1 F1 Hp. cbv beta match. apply (new_list_good ca cd pf ls cs); auto. }
+    - intros pairs st1 I1 F1 Hp. cbv beta match. apply (new_list_good ca cd pf ls cs defs); auto. }
   destruct (nth 0 args VNone) as [ ? | self | ? | | ? | ? | | ? | ? | ? ? ? | ? | ? ]; try exact I.
   - destruct (str_eqb n (s "join")). { repeat first [leaf HI | post_step]. }
     destruct (str_eqb n (s "split")).
     { destruct (nth 1 args VNone) as [| sep | | | | | | | | | |]; try exact I. destruct sep; [exact I|].
-      apply (new_list_good ca cd pf ls cs); auto. apply Forall_map_VStr. }
+      apply (new_list_good ca cd pf ls cs defs); auto. apply Forall_map_VStr. }
     repeat first [leaf HI | post_step].
   - apply Hd. apply vok_dict_frozen. exact A0.
   - apply Hd. exact A0.
@@ -467,10 +455,10 @@ Proof.
     eapply good_bind.
     + apply (mapM_good vok); [exact HI|]. intros x Hin st0 I0. apply IH; auto.
       rewrite forallb_forall in Hs. apply Hs. exact Hin.
-    + intros vs st1 I1 F1 Hv. cbv beta match. apply (new_list_good ca cd pf ls cs); auto.
+    + intros vs st1 I1 F1 Hv. cbv beta match. apply (new_list_good ca cd pf ls cs defs); auto.
   - (* XConst *)
     rewrite sok_e_Ex, sok_v_const in Hs. repeat (apply andb_prop in Hs; destruct Hs as [Hs ?]).
-    apply good_pure; auto. rewrite (i_cs _ _ _ _ _ _ HI). exact Hs.
+    apply good_pure; auto. rewrite (i_cs _ _ _ _ _ _ _ HI). exact Hs.
 Qed.
 
 (* ---------------------------------------------------------------- small facts used by the evaluator proof *)
@@ -480,13 +468,6 @@ Proof.
   intros A B g. induction l as [|x r IH]; intros st ys st' H; cbn [mapM] in H.
   - apply Ok_inj in H. injection H as <- _. reflexivity.
   - inv_res H. apply Ok_inj in H. injection H as <- _. cbn. f_equal. eapply IH. eassumption.
-Qed.
-
-Lemma new_list_items : forall items st, exists r, fst (new_list items st) = VList r /\ list_items Asp (snd (new_list items st)) r = items.
-Proof.
-  intros items st. unfold new_list, alloc_list. cbn [fst snd]. eexists. split; [reflexivity|].
-  unfold list_items, arr_of. cbn [s_arr s_off s_len arrays set_arrays]. rewrite app_nth2 by lia. rewrite Nat.sub_diag. cbn [nth skipn].
-  rewrite Nat.sub_diag. cbn [repeat]. rewrite app_nil_r. apply firstn_all.
 Qed.
 
 Lemma assoc_get_ok : forall (l : list (str * env)) k g, Forall (fun le => env_ok (snd le)) l -> assoc_get k l = Some g -> env_ok g.
@@ -506,53 +487,36 @@ Proof.
       destruct (nth_app_cases (funcs st) fd i dflt_func) as [[Hl ->]|[[Hl ->]|[Hl _]]]; auto. lia.
   - constructor; cbn [arrays dicts funcs fscopes cur locals consts subcache set_funcs]; auto. exists [fd]. reflexivity.
   - unfold C17_Inv.vok, C17_Inv.vokb. destruct (pf (length (funcs st))) eqn:E; auto.
-    pose proof (i_pf _ _ _ _ _ _ HI _ E). lia.
+    pose proof (i_pf _ _ _ _ _ _ _ HI _ E). lia.
 Qed.
 
 Definition sres_ok (r : sres) : Prop := match r with RRet v => vok v | _ => True end.
 
 (* the specifications of the six mutually recursive functions of the evaluator, for one amount of fuel *)
-Definition Vpost (x : vexpr) (st : state) : value -> state -> Prop :=
-  fun v st' => good st vok v st' /\ (safe_addend x = true -> addsafe st' v).
-
-Definition Epost (e : expr) (st : state) : value -> state -> Prop :=
-  fun v st' => good st vok v st' /\ (addend_e e = true -> addsafe st' v).
-
 Definition E_spec (f : nat) : Prop :=
-  forall e st, sok_e e = true -> Inv st -> post (Epost e st) (eval_expr Asp [] f e st).
+  forall e st, sok_e e = true -> Inv st -> post (good st vok) (eval_expr Asp defs f e st).
 Definition V_spec (f : nat) : Prop :=
-  forall x st, sok_v x = true -> Inv st -> post (Vpost x st) (eval_vexpr Asp [] f x st).
+  forall x st, sok_v x = true -> Inv st -> post (good st vok) (eval_vexpr Asp defs f x st).
 Definition C_spec (f : nat) : Prop :=
-  forall fn name args st, vok fn -> sok_args ca cd pf cs args = true -> Inv st -> post (good st vok) (call_value Asp [] f fn name args st).
+  forall fn name args st, vok fn -> sok_args ca cd pf cs args = true -> Inv st -> post (good st vok) (call_value Asp defs f fn name args st).
 Definition R_spec (f : nat) : Prop :=
-  forall id bound st, vok (VFunc id) -> env_ok bound -> Inv st -> post (good st vok) (run_func Asp [] f id bound st).
+  forall id bound st, vok (VFunc id) -> env_ok bound -> Inv st -> post (good st vok) (run_func Asp defs f id bound st).
 Definition B_spec (f : nat) : Prop :=
-  forall ss st, sok_p ca cd pf cs ss = true -> Inv st -> post (good st sres_ok) (exec_block Asp [] f ss st).
+  forall ss st, sok_p ca cd pf cs ss = true -> Inv st -> post (good st sres_ok) (exec_block Asp defs f ss st).
 Definition S_spec (f : nat) : Prop :=
-  forall s0 st, sok_s ca cd pf cs s0 = true -> Inv st -> post (good st sres_ok) (exec_stmt Asp [] f s0 st).
+  forall s0 st, sok_s ca cd pf cs s0 = true -> Inv st -> post (good st sres_ok) (exec_stmt Asp defs f s0 st).
 
-Lemma V_plain : forall f x st, V_spec f -> sok_v x = true -> Inv st -> post (good st vok) (eval_vexpr Asp [] f x st).
-Proof. intros f x st HV Hs HI. eapply post_weaken; [apply HV; auto|]. intros a st' [H _]. exact H. Qed.
+Lemma V_plain : forall f x st, V_spec f -> sok_v x = true -> Inv st -> post (good st vok) (eval_vexpr Asp defs f x st).
+Proof. intros f x st HV Hs HI. apply HV; auto. Qed.
 
-Lemma E_plain : forall f e st, E_spec f -> sok_e e = true -> Inv st -> post (good st vok) (eval_expr Asp [] f e st).
-Proof. intros f e st HE Hs HI. eapply post_weaken; [apply HE; auto|]. intros a st' [H _]. exact H. Qed.
-
-Lemma Epost_of_good : forall e st r, addend_e e = false -> post (good st vok) r -> post (Epost e st) r.
-Proof.
-  intros e st r Hx H. eapply post_weaken; [exact H|]. intros a st' Hg. split; [exact Hg|]. intros E. rewrite Hx in E. discriminate.
-Qed.
-
-Lemma Vpost_of_good : forall x st r, safe_addend x = false -> post (good st vok) r -> post (Vpost x st) r.
-Proof.
-  intros x st r Hx H. eapply post_weaken; [exact H|]. intros a st' Hg. split; [exact Hg|]. intros E. rewrite Hx in E. discriminate.
-Qed.
+Lemma E_plain : forall f e st, E_spec f -> sok_e e = true -> Inv st -> post (good st vok) (eval_expr Asp defs f e st).
+Proof. intros f e st HE Hs HI. apply HE; auto. Qed.
 
 Lemma V_operand : forall f ops, V_spec f -> forallb sok_i ops = true ->
-  forall o x, List.In (OBin o x) ops -> operand_good (eval_vexpr Asp [] f) o x.
+  forall o x, List.In (OBin o x) ops -> operand_good (eval_vexpr Asp defs f) x.
 Proof.
   intros f ops HV Hops o x Hin st HI. rewrite forallb_forall in Hops. specialize (Hops _ Hin). rewrite sok_i_bin in Hops.
-  apply andb_prop in Hops. destruct Hops as [Hx Ha]. eapply post_weaken; [apply HV; auto|].
-  intros v st' [Hg Hadd]. split; [exact Hg|]. intros ->. cbn [is_add] in Ha. auto.
+  apply HV; auto.
 Qed.
 
 End Ops.
